@@ -10,8 +10,8 @@ package har
 // ghost arrival stamp taken from a ghost clock under the lock. The ring invariant: tail is the newest member,
 // tail.next the oldest, and next leads from every other member to its immediate successor in arrival order.
 
-//@ guarded_by Logger.entries mu C17
-//@ guarded_by Logger.tail mu C17
+//@ guarded_by Logger.entries mu C17 reacquire
+//@ guarded_by Logger.tail mu C17 reacquire
 //@ ghost field Entry.arr int
 //@ ghost field Entry.gpos int
 //@ ghost var harClock int
@@ -48,8 +48,8 @@ package har
 //@   ensures[new-entry-is-the-newest-member] !old(has(l.entries, id)) && result == nil ==> has(l.entries, id) && l.tail == l.entries[id] && !wasAllocated(l.tail) &&
 //@        (forall k string :: k != id ==> has(l.entries, k) == old(has(l.entries, k)) && l.entries[k] == old(l.entries[k])) &&
 //@        (forall e *Entry :: old(inLog(l, e)) ==> e.arr == old(e.arr) && e.arr < l.tail.arr)
-//@   at call 0 of Lock after set entry.arr = harClock
-//@   at call 0 of Lock after set harClock = harClock + 1
+//@   at mapupdate 0 before set entry.arr = harClock
+//@   at mapupdate 0 before set harClock = harClock + 1
 
 //@ extern func (*Logger).postDataLogging
 //@ extern func (*Logger).bodyLogging
